@@ -60,6 +60,14 @@ void canary_plans(const std::string &prop, CanaryList &out) {
     p.tasks[0].ops = {create(100, 1), asm_lines({"add rcx, rdx", "ret"}, 2)};
     out.push_back({"extra_line_in_text", {p, "bytes"}});
   }
+  if (prop == "C15") {  // this process's library call sees another text than the plan says; a new process does not: new-process oracle
+    Plan p = base("history");
+    p.world.sabotage = 5;
+    Op so = mk(OP_OFFSET, 0, 2);
+    so.k = 4;
+    p.tasks[0].ops = {create(100, 1), so, asm_lines({"add rcx, rdx", "ret"}, 3)};
+    out.push_back({"differs_from_new_process", {p, "history"}});
+  }
   if (prop == "C13" || prop == "C08" || prop == "C15" || prop == "C18") {  // the library gets another chunk size than the model
     Plan p = base("fit");
     p.world.sabotage = 3;
